@@ -294,12 +294,12 @@ PROPS = {
         trusted=EXEC_TRUST + ["the helper-entry stack pointer is observed by an assembly trampoline in the harness"],
     ),
     "C09": dict(
-        suites=["exec-engines#context,engrandom"], oracle=engine_oracle(["jit", "clif"]), level="proof", model_is_spec=True,
+        suites=["exec-engines#context,engrandom", "api#kind=fixed"], oracle=engine_oracle(["jit", "clif"]), level="proof", model_is_spec=True,
         nontrivial=lambda line, impl: impl.startswith("ok"),
         rule="suite exec-engines#context: 4 VM kinds x 3 engines x packet lengths {0,1,8,64,1500} x (data_offset,data_end_offset) in {(0,8),(8,0),(0x40,0x50),(0x50,0x40),(0,4096),(65528,0),(16,24)} "
              "x metadata present/absent; probes: r1 null-ness, stack writable at r10-8 and r10-512, first byte through r1, first/last packet byte through ldabs and ldind, fixed-metadata slots "
              "(end - start = len, first and last byte through the slots); plus random programs per kind. The fixed-metadata buffer's real address is learnt by a probe program. "
-             "Successive executions: every probe is executed a second time on the same VM and the same buffer with the packet cut to half its length (again=), under each engine. "
+             "Suite api on the fixed-metadata VM: histories that load programs with other offset pairs (same or different buffer length) and then read the slots and the bytes between them. Successive executions: every probe is executed a second time on the same VM and the same buffer with the packet cut to half its length (again=), under each engine. "
              "Non-trivial: distinct configuration x probe that ran to a value.",
         trusted=EXEC_TRUST,
     ),
